@@ -31,6 +31,7 @@ type projOpts struct {
 	out   string
 	tree  bool
 	split bool
+	reuse bool
 }
 
 func parseOpts(s string) projOpts {
@@ -60,6 +61,10 @@ func parseOpts(s string) projOpts {
 			o.tree = true
 		case "split":
 			o.split = true
+		case "reuse":
+			// the project is written into ONE directory per harness process, emptied and rewritten for every project:
+			// a later project meets the same absolute file names as an earlier one with other contents
+			o.reuse = true
 		}
 	}
 	return o
@@ -84,7 +89,15 @@ func renderErr(dir string, je *jerr.JApiError) string {
 
 func runProject(optS string, files [][2][]byte) (out string) {
 	o := parseOpts(optS)
-	dir, err := os.MkdirTemp("", "vproj")
+	var dir string
+	var err error
+	if o.reuse {
+		dir = filepath.Join(os.TempDir(), fmt.Sprintf("vreuse%d", os.Getpid()))
+		os.RemoveAll(dir)
+		err = os.MkdirAll(dir, 0o755)
+	} else {
+		dir, err = os.MkdirTemp("", "vproj")
+	}
 	if err != nil {
 		return "harness-error " + hxs(err.Error())
 	}
